@@ -127,6 +127,7 @@ type PkgSpec struct {
 	Relies    map[string]string   // "T.mu" -> two-state predicate (old() = state at acquisition)
 	PureExt   []string
 	Immutable map[string][]string // type name -> fields never written after construction
+	ImmutNonNil map[string][]string // ... of those, the ones that are never nil after construction (`f!`)
 	GlobalWriters []string // "Cxx pkg.var func": allowed (variable, writer) pairs of the global-write inventory
 	ImmutCells []string           // deref heaps (by element type, e.g. time.Time) whose cells are written only when fresh
 	Lemmas    []*Lemma
@@ -251,7 +252,16 @@ func parseContractFile(path, pkgPath string) (*PkgSpec, error) {
 				return nil, fail(fmt.Errorf("bad immutable"))
 			}
 			for _, f := range strings.Split(m[2], ",") {
-				ps.Immutable[m[1]] = append(ps.Immutable[m[1]], strings.TrimSpace(f))
+				f = strings.TrimSpace(f)
+				if strings.HasSuffix(f, "!") {
+					// `f!`: immutable and never nil once the constructing function has returned
+					f = strings.TrimSuffix(f, "!")
+					if ps.ImmutNonNil == nil {
+						ps.ImmutNonNil = map[string][]string{}
+					}
+					ps.ImmutNonNil[m[1]] = append(ps.ImmutNonNil[m[1]], f)
+				}
+				ps.Immutable[m[1]] = append(ps.Immutable[m[1]], f)
 			}
 		case strings.HasPrefix(t, "monitor "):
 			m := regexp.MustCompile(`^monitor\s+(\S+)\s+(inv|rely)\s+(\S+)$`).FindStringSubmatch(t)
